@@ -20,29 +20,41 @@ pub struct Pi1 {
 }
 
 pub fn textbook_pi1(s: &MSym) -> Pi1 {
-    textbook_pi1_with_extra_trivial(s, &[])
+    textbook_pi1_with_trivial_facets(s, None)
 }
 
-/// Same, with additional facets declared trivial (used to test `inner_edges`).
-pub fn textbook_pi1_with_extra_trivial(s: &MSym, extra_trivial: &[(usize, usize)]) -> Pi1 {
+/// Same construction, but with the given facets (instead of a BFS spanning tree) declared
+/// trivial. If the set contains a spanning tree and all further members are consequences of
+/// the relations, this presents the same group; `inner_edges` is tested through it.
+pub fn textbook_pi1_with_trivial_facets(s: &MSym, trivial: Option<&[(usize, usize)]>) -> Pi1 {
     let (n, dim) = (s.n, s.dim);
-    // spanning tree by BFS from chamber 1 over non-loop edges
     let mut tree = vec![vec![false; dim + 1]; n + 1];
-    let mut seen = vec![false; n + 1];
-    seen[1] = true;
-    let mut q = VecDeque::from([1usize]);
-    while let Some(d) = q.pop_front() {
-        for i in 0..=dim {
-            let e = s.op[i][d];
-            if !seen[e] {
-                seen[e] = true;
+    match trivial {
+        Some(list) => {
+            for &(d, i) in list {
                 tree[d][i] = true;
-                tree[e][i] = true;
-                q.push_back(e);
+                tree[s.op[i][d]][i] = true;
             }
         }
+        None => {
+            // spanning tree by BFS from chamber 1 over non-loop edges
+            let mut seen = vec![false; n + 1];
+            seen[1] = true;
+            let mut q = VecDeque::from([1usize]);
+            while let Some(d) = q.pop_front() {
+                for i in 0..=dim {
+                    let e = s.op[i][d];
+                    if !seen[e] {
+                        seen[e] = true;
+                        tree[d][i] = true;
+                        tree[e][i] = true;
+                        q.push_back(e);
+                    }
+                }
+            }
+            assert!((1..=n).all(|d| seen[d]), "textbook_pi1 needs a connected symbol");
+        }
     }
-    assert!((1..=n).all(|d| seen[d]), "textbook_pi1 needs a connected symbol");
     let mut letter = vec![vec![0i64; dim + 1]; n + 1];
     let mut next = 0i64;
     let mut rels: Vec<Word> = vec![];
@@ -101,11 +113,6 @@ pub fn textbook_pi1_with_extra_trivial(s: &MSym, extra_trivial: &[(usize, usize)
                 }
                 orbit_relators.push((i, j, d, v));
             }
-        }
-    }
-    for &(d, i) in extra_trivial {
-        if letter[d][i] != 0 {
-            rels.push(vec![letter[d][i]]);
         }
     }
     Pi1 { pres: Pres { ngens: next as usize, rels }, letter, orbit_relators }
